@@ -48,6 +48,8 @@ def tags(spec, cfg=None):
             out.append("resize-nn-align-corners")
         if o["code"] == "AVERAGE_POOL_2D" and (f.get("StrideW", 1) > 3 or f.get("StrideH", 1) > 3) and spec["tensors"][o["inputs"][0]]["dtype"] == "int16":
             out.append("int16-avgpool-wide-stride")
+        if o["code"] == "UNIDIRECTIONAL_SEQUENCE_LSTM" and not f.get("TimeMajor"):
+            out.append("lstm-batch-major")
         if o["code"] == "CONCATENATION" and len(set(o["inputs"])) < len(o["inputs"]):
             out.append("concat-duplicate-input")
         if o["code"] == "CONCATENATION" and spec["tensors"][o["outputs"][0]]["shape"][:1] not in ([1], []):
